@@ -155,6 +155,11 @@ func buildCorpus() ([]corpusItem, error) {
 		return nil, err
 	}
 	add("crl", "crl", crl, true)
+	// the PEM forms the same decoders accept: the CRL alone, behind a block of another type, with text around the blocks
+	crlPEM := pem.EncodeToMemory(&pem.Block{Type: "X509 CRL", Bytes: crl})
+	add("crl (PEM)", "crl", crlPEM, false)
+	add("crl (PEM, behind a certificate block and text)", "crl", append(append(pem.EncodeToMemory(&pem.Block{Type: "CERTIFICATE", Bytes: lc.Raw}), []byte("some text\n")...), crlPEM...), false)
+	add("request (PEM)", "pem", pem.EncodeToMemory(&pem.Block{Type: "CERTIFICATE REQUEST", Bytes: csr}), false)
 	env, err := x509.PKCS7EncryptSM2([]byte("enveloped content 0123456789"), []*x509.Certificate{lc}, sm2.C1C3C2)
 	if err != nil {
 		return nil, err
